@@ -10,7 +10,10 @@ notes = {m["name"]: m.get("note", "") for m in json.loads((HERE / "mutants" / "i
 for d in sorted((HERE / "seeded").glob("*/")):
     meta = json.loads((d / "meta.json").read_text())
     notes[d.name] = (meta.get("summary") or "")
-out = ["<!-- RESULTS-BEGIN -->", f"Last complete run: {len(rows)} changes, "
+import os
+
+head = os.environ.get("RESULTS_HEADLINE", "Last complete run")
+out = ["<!-- RESULTS-BEGIN -->", f"{head}: {len(rows)} changes, "
        f"{sum(r['status'] == 'CAUGHT' for r in rows)} caught by every check expected to catch them.", "",
        "| change | what it does | expected | alarm raised by (first signatures) |", "|---|---|---|---|"]
 for r in rows:
